@@ -4,11 +4,11 @@ from props import *
 # Small pools with a lot of overlap: names that are prefixes of each other and that can also be
 # produced through namespace_subsystem_name; two or three helps; constant labels whose values
 # shift boundaries; variable labels that may also occur as constant labels.
-NAMES = ["x", "y", "x_total", "xy", "a:b", "t"]
+NAMES = ["x", "y", "x_total", "xy", "a:b", "t", "g", "f"]        # x/y, g/f differ in one low bit
 NS_FORMS = {"x_total": ("x", "", "total"), "xy": ("", "", "xy"), "x": ("", "", "x")}
 HELPS = ["h", "help A", "help B"]
 CKEYS = ["a", "b", "k"]
-CVALS = ["1", "2", "", "ab", "a"]
+CVALS = ["1", "2", "3", "", "ab", "a"]                            # "2"/"3" differ in one low bit
 VKEYS = ["v", "w", "a"]
 COMMON = ["env", "zone", "dc"]
 COLL1 = "indbfqeysbnpsf"          # FNV-1a-64 collision pair of valid metric names
@@ -64,7 +64,7 @@ class RegGen:
             elif k < 0.75 and ck: ck = ck[1:]
             elif k < 0.9: vk = vk + [r.choice([v for v in VKEYS if v not in vk and v not in ck] or ["w2"])]
             elif vk: vk = vk[:-1]
-        consts = [(k, r.choice(CVALS[:3]) if r.random() < 0.8 else r.choice(CVALS)) for k in ck]
+        consts = [(k, r.choice(CVALS[:4]) if r.random() < 0.8 else r.choice(CVALS)) for k in ck]
         r.shuffle(consts)
         return (name, help_, vk, consts)
 
@@ -141,6 +141,19 @@ class RegGen:
             fams.append(mk_family("other", "h", "GAUGE", [mk_metric(labels=[("u", str(self.uid))], gauge=f64(float(self.uid)))]))
         slot = self.s.emit("OpCustom", descs, fams)
         return self.add("custom", slot, descs)
+
+    def lowbit_pair(self):
+        """two custom collectors {n1{k=d1}, n2}, {n1{k=d2}, n2'} over letters / digits that differ in low bits: four different
+        descriptors whose ids have nearly the same bits (the pre-edcf206 registry filed collectors under the SUM of the ids)"""
+        r = self.r
+        n1 = r.choice("fgxy")
+        n2, n2b = r.sample([c for c in "fgxy" if c != n1], 2)
+        d1, d2 = r.sample("0123", 2)
+        for n in (n1, n2, n2b):
+            if n not in self.canon: self.canon[n] = ("h", ("k",) if n == n1 else (), (), "G")
+        h1, h2, h2b = self.canon[n1][0], self.canon[n2][0], self.canon[n2b][0]
+        return [self.custom([(n1, h1, [], [("k", d1)]), (n2, h2, [], [])]),
+                self.custom([(n1, h1, [], [("k", d2)]), (n2b, h2b, [], [])])]
 
     def registered_descs(self, reg):
         return [d for i in self.state.get(reg, []) for d in self.cols[i]["descs"]]
@@ -230,6 +243,10 @@ class RegGen:
                 else:
                     i = self.custom() if r.random() < 0.5 else self.real()
                 self.call("OpRegister", reg, i)
+            elif k < 0.96:
+                i, j = self.lowbit_pair()
+                self.call("OpRegister", reg, i); self.call("OpRegister", reg, j)
+                self.call("OpUnregister", reg, r.choice([i, j]))
             else:
                 self.s.emit("OpGather", reg); self.ncalls += 1
         for reg in self.regs: self.s.emit("OpGather", reg)
@@ -324,6 +341,43 @@ def all_histories(maxlen):
             yield list(calls)
 
 
+def sum_witness_unregister():
+    """the defect repaired by edcf206 (collectors filed under the wrapping sum of their descriptor ids):
+    A = [x{k="3"}; y] and B = [x{k="2"}; x] had the same sum, so unregister(B) - B was never registered, it disagrees with
+    itself - answered Ok and removed A"""
+    s = Slots()
+    reg = s.emit("OpRegistry", None, None)
+    da = [("x", "help B", [], [("k", "3")]), ("y", "h", [], [])]
+    db = [("x", "help B", [], [("k", "2")]), ("x", "h", [], [])]
+    a = s.emit("OpCustom", da, [sample_family(d, 1.0 + i) for i, d in enumerate(da)])
+    b = s.emit("OpCustom", db, [sample_family(d, 3.0 + i) for i, d in enumerate(db)])
+    s.emit("OpRegister", reg, a)                    # Ok
+    s.emit("OpRegister", reg, b)                    # Msg: x with and without k
+    s.emit("OpGather", reg)
+    s.emit("OpUnregister", reg, b)                  # must fail
+    s.emit("OpGather", reg)                         # A is still there
+    s.emit("OpUnregister", reg, a)                  # Ok
+    s.emit("OpGather", reg)
+    return s.ops
+
+
+def sum_witness_register():
+    """C1 = [g{k="1"}; y] and C2 = [g{k="2"}; x]: four different descriptors, the same sum of ids: register(C2) after
+    register(C1) answered AlreadyReg"""
+    s = Slots()
+    reg = s.emit("OpRegistry", None, None)
+    d1 = [("g", "h", [], [("k", "1")]), ("y", "h", [], [])]
+    d2 = [("g", "h", [], [("k", "2")]), ("x", "h", [], [])]
+    c1 = s.emit("OpCustom", d1, [sample_family(d, 1.0 + i) for i, d in enumerate(d1)])
+    c2 = s.emit("OpCustom", d2, [sample_family(d, 3.0 + i) for i, d in enumerate(d2)])
+    s.emit("OpRegister", reg, c1); s.emit("OpRegister", reg, c2)      # both Ok
+    s.emit("OpGather", reg)
+    s.emit("OpUnregister", reg, c1); s.emit("OpGather", reg)
+    s.emit("OpUnregister", reg, c2); s.emit("OpGather", reg)
+    s.emit("OpRegister", reg, c2); s.emit("OpRegister", reg, c1); s.emit("OpGather", reg)
+    return s.ops
+
+
 class C06(SeqProp):
     pid = "C06"
     spec_import = "Require Import PV.Spec.SpecC06."
@@ -334,14 +388,15 @@ class C06(SeqProp):
             "collectors with 1-4 descriptors over 2-4 overlapping names, 3 helps, 3 constant keys x 5 values, 3 variable labels; then "
             "3-25 register / unregister / gather calls: arbitrary pairs, the same collector twice, unregister + register again, "
             "unregister of unregistered collectors, collectors listing a descriptor twice, multi-descriptor collectors refused on their "
-            "2nd or 3rd descriptor followed by a registration that reuses the name of a descriptor preceding the refused one with any "
+            "2nd or 3rd descriptor, pairs of two-descriptor collectors {n1{k=d}, n2} over letters / digits that differ in low bits (sums of "
+            "their ids coincide: the defect repaired by edcf206), multi-descriptor collectors refused late followed by a registration that reuses the name of a descriptor preceding the refused one with any "
             "help; a gather follows 3 calls in 4; in addition every history of <= 2 calls (thorough: <= 3, 1884 histories) and a "
             "sample of longer ones over a fixed pool of 6 collectors that realises every relation the property distinguishes (equal "
             "descriptor with the same / another help, same name with other label names, multi-descriptor collectors whose 1st or 2nd "
             "descriptor is equal to / disagrees with another collector's), with a gather after every call; non-trivial = at least one refused registration that is followed by an accepted "
             "register or unregister call; distinct = distinct scenario text")
     assumptions = ["descriptor identity and signature agreement are decided by 64-bit FNV-1a hashes: the iff holds on every pool of "
-                   "descriptors without hash collision (hypotheses ids_exact_on / dims_exact_on / sums_exact_on of the theorems, which "
+                   "descriptors without hash collision (hypotheses ids_exact_on / dims_exact_on / cids_exact_on of the theorems, which "
                    "follow from injectivity of FNV-1a on the serialised identities: c06_ids_exact_from_fnv, c06_dims_exact_from_fnv); "
                    "a concrete collision between two valid metric names is the known finding C06-fnv-collision (c06_refuted_collision)",
                    "a collector has no identity beyond the set of its descriptors (the API consumes a Box<dyn Collector> per call)",
@@ -353,7 +408,8 @@ class C06(SeqProp):
                    "collector); which collectors are registered is tracked by the spec from the implementation's own answers",
                    "HashMap iteration order is exercised through fresh maps per registry, not controlled"]
     corpus = [defect_b8e028c(), defect_b8e028c(second=("t", "other help", [], [("k", "1")])),
-              defect_b8e028c(second=("fresh", "help A", [], [])), collision_witness()]
+              defect_b8e028c(second=("fresh", "help A", [], [])), collision_witness(),
+              sum_witness_unregister(), sum_witness_register()]
 
     def gen(self, r, tier):
         n = 300 if tier == "quick" else 3000
